@@ -2,6 +2,7 @@ import HecsModel.Model.Guards
 import HecsModel.Model.GuardJudge
 import HecsModel.Lemmas.GuardsHeld
 import HecsModel.Lemmas.Query
+import HecsModel.Lemmas.Alias
 /-
   C05 — Dynamic borrow checking enforces aliasing-xor-mutation, exactly.
 
@@ -418,5 +419,40 @@ theorem many_distinct_rows (w : World) (hc : w.Core) (q : Q) (e₁ e₂ : Entity
   rw [← hg₁, ← hg₂]
 
 example : manyOk [⟨0, 1⟩, ⟨1, 1⟩, ⟨0, 2⟩] = true ∧ manyOk [⟨0, 1⟩, ⟨1, 1⟩, ⟨0, 1⟩] = false := by decide
+
+/-! ### queries that alias a unique borrow within themselves
+
+"A query that aliases a unique borrow within itself is always rejected": `assert_borrow` (the static
+check, `Q.assertBorrowOk`) runs on every path that does not check borrows dynamically; on the paths
+that do, a self-aliasing query is refused when it reaches a non-empty archetype it prepares on
+(`QueryJudge.aliasAnswer` is the executable statement the correspondence runs against the code). -/
+
+/-- the static check is sound for the dynamic one: a query accepted by `assert_borrow` never asks an
+archetype for two borrows of one column of which one is unique, whatever the archetype -/
+theorem assert_sound_for_dynamic (q : Q) (ts : List Nat) (h : q.assertBorrowOk = true) :
+    QueryJudge.selfConflict (q.borrowList ts) = false :=
+  AliasLemmas.assert_sound_for_dynamic q ts h
+
+/-- what a query borrows on an archetype is a sub-list of what it may borrow at all -/
+theorem borrowList_sublist (q : Q) (ts : List Nat) : (q.borrowList ts).Sublist q.borrows :=
+  AliasLemmas.borrowList_sublist q ts
+
+/-- a query accepted by `assert_borrow` is never answered "panic" for aliasing reasons -/
+theorem aliasAnswer_none_of_ok (q : Q) (path : String) (ex : Option Bool) (dyn : Bool)
+    (h : q.assertBorrowOk = true) : QueryJudge.aliasAnswer q path ex dyn = none := by
+  simp [QueryJudge.aliasAnswer, h]
+
+/-- a self-aliasing query is refused on every statically checked path -/
+theorem aliasAnswer_static (q : Q) (path : String) (dyn : Bool) (h : q.assertBorrowOk = false)
+    (hp : path ∈ QueryJudge.assertingPaths) (hne : path ≠ "one") (hne' : path ≠ "eref") :
+    QueryJudge.aliasAnswer q path none dyn = some "panic" := by
+  have h1 : (path == "one") = false := by simpa using hne
+  have h2 : (path == "eref") = false := by simpa using hne'
+  simp only [QueryJudge.aliasAnswer, h, Bool.false_eq_true, if_false, h1, h2, Bool.or_self,
+    List.contains_iff_mem.2 hp, if_true]
+
+example : (Q.pair (.write 0) (.pair (.read 0) .unit)).assertBorrowOk = false := by decide
+example : QueryJudge.selfConflict ((Q.pair (.write 1) (.pair (.opt (.write 1)) .unit)).borrowList [1]) = true := by decide
+example : QueryJudge.selfConflict ((Q.pair (.write 1) (.pair (.opt (.write 1)) .unit)).borrowList [0]) = false := by decide
 
 end Hecs.Props.C05
